@@ -42,9 +42,45 @@ theorem dequeFlow_laws : FlowLaws dequeSpec dequeFlow (fun l => l) where
     | reset => simp [dequeSpec, dequeFlow] at h
   init := rfl
 
+theorem dequeEmpty_laws : EmptyLaws dequeSpec dequeFlow (fun l => l) where
+  keep := by
+    intro a op v hw _ _
+    cases op with
+    | init vs => simp [dequeSpec, dequeFlow, List.count_append]
+    | push w => simp [dequeSpec, dequeFlow, List.count_append]
+    | pushFront w => simp [dequeSpec, dequeFlow, List.count_cons]
+    | pop => cases a <;> simp [dequeSpec, dequeFlow, List.count_cons]
+    | peek => cases a <;> simp [dequeSpec, dequeFlow]
+    | peekTail => simp only [dequeSpec]; split <;> simp [dequeFlow]
+    | isEmpty => simp [dequeSpec, dequeFlow]
+    | reset => simp [dequeFlow] at hw
+  empty := by
+    intro a op h
+    left
+    cases op with
+    | init vs => simp [dequeSpec, dequeFlow] at h
+    | push w => simp [dequeSpec, dequeFlow] at h
+    | pushFront w => simp [dequeSpec, dequeFlow] at h
+    | pop => cases a <;> simp [dequeSpec, dequeFlow] at h ⊢
+    | peek => cases a <;> simp [dequeSpec, dequeFlow] at h ⊢
+    | peekTail =>
+      simp only [dequeSpec] at h
+      split at h
+      · rename_i hl; exact List.getLast?_eq_none_iff.mp hl
+      · simp [dequeFlow] at h
+    | isEmpty => cases a <;> simp [dequeSpec, dequeFlow] at h ⊢
+    | reset => simp [dequeSpec, dequeFlow] at h
+  empty_notake := by
+    intro op r h
+    cases op <;> cases r <;> simp [dequeFlow] at h ⊢
+    all_goals (rename_i v ok; cases ok <;> simp at h ⊢)
+  take_may := by
+    intro op r v h
+    cases op <;> simp [dequeFlow] at h ⊢
+
 theorem monC12_of_linearizable (h : List Obs) (hl : Linearizable dequeSpec (h.filterMap Obs.toH)) :
     monC12.accepts h = true := by
   rw [monC12, comapOpt_accepts]
-  exact flow_of_linearizable dequeSpec dequeFlow _ dequeFlow_laws _ hl
+  exact container_of_linearizable dequeSpec dequeFlow _ dequeFlow_laws dequeEmpty_laws _ hl
 
 end UtilModel.LinkedList
